@@ -234,6 +234,7 @@ func runC17(rc *RunCtx) {
 			return
 		}
 	}
+	s.RollbackProb = 0.05
 	registered := map[int]bool{}
 	for _, p := range provs {
 		if rc.Chance(0.8) {
